@@ -667,7 +667,12 @@ class NetworkGraph(AbstractBaseIR):
             for i, (d, sidx) in enumerate(zip(delays, source_idx)):
                 var_delayed = f"past({var}, {d})" if type(d) is float or d != 1 else var
                 if len(target_shape) < 1 or (len(target_shape) == 1 and target_shape[0] == 1):
-                    buffer_eqs.append(f"{var}_buffered{buffer_id} = {var_delayed}")
+                    if len(delays) == 1:
+                        buffer_eqs.append(f"{var}_buffered{buffer_id} = {var_delayed}")
+                    else:
+                        # a scalar source with several delayed connections: one buffer slot per connection (a single
+                        # buffered scalar would hold the delay of the last connection for all of them)
+                        buffer_eqs.append(f"index({var}_buffered{buffer_id}, {i}) = {var_delayed}")
                 elif len(delays) == 1:
                     # a single delayed connection: the buffered value is a scalar (a length-1 vector could not be
                     # written into the single target element)
